@@ -90,6 +90,20 @@ CHECKS = {
         "Termination = answer within 5 s (re-confirmed 50 s in a fresh process) for inputs <= 8 KB. Corpus in corpus/specs (tools/mkcorpus.py).",
         "DESIGN.md section 5, C12",
     ),
+    "C14": (
+        "property-based testing: serialise/reconstitute round trip compared through a digest of every public query plus parse results",
+        "exploration",
+        "Generated grammars (all kinds and optional declarations) x {fixed, variable} wincode encodings x {u8,u16,u32}: digest(original) == digest(_reconstitute(serialised)) for grammar and table (conflict lists in order), equal parse results on generated inputs.",
+        "Trusted: the digest printer (digest.rs) enumerates the public accessors; serialisation called exactly as ctbuilder does.",
+        "DESIGN.md section 5, C14",
+    ),
+    "C15": (
+        "property-based testing: repeated in-process builds, fresh-process builds and separate compile-time build processes compared through digests / generated file bytes",
+        "exploration",
+        "Generated grammars incl. Eco implicit tokens: 5 in-process builds (fresh hash seeds) give equal digests; sampled cases are also digested in 3 fresh processes and built by the compile-time builders in 3 separate processes with byte-identical generated modules (timestamp masked).",
+        "Conflict list order and core_reduces representative not compared. Thread interleavings of a generated parser's first use are only stress-tested in C13's batch binary (the harness does not own the scheduler).",
+        "DESIGN.md section 5, C15",
+    ),
     "C16": (
         "property-based testing: cross-checking every public state-graph / state-table query per state, token and rule; closed states against a reference LR(1) closure",
         "exploration",
@@ -110,6 +124,13 @@ CHECKS = {
         "Generated texts x chunkings; every char-boundary offset and every span of each text is compared with a naive scan; exhaustive over offsets/spans per text, random over texts.",
         "Trusted: the naive reference (count of LF / chars since line start), proptest, rustc. Both readings of 'span ends at a line start' accepted.",
         "DESIGN.md section 5, C19",
+    ),
+    "C20": (
+        "property-based testing + boundary enumeration: every grammar built with u8, u16 and u32 and compared through digests; panics classified as clean refusals or violations",
+        "exploration",
+        "Size-boundary families (rules, tokens, productions, symbols per production, LR states, lexer rules) around 255 and 65535 plus ordinary grammars: each width either completes with sizes equal to the u32 build and equal digests / parse results, or is refused with the documented StorageT panic; wider widths accept whatever a narrower one accepts.",
+        "State numbers are compared up to the canonical breadth-first renumbering (item hash maps iterate differently for different index types); reduce/reduce entries as (token, loser, state). Full digest only below 40 KB of grammar text.",
+        "DESIGN.md section 5, C20",
     ),
 }
 
